@@ -335,7 +335,7 @@ impl State {
                         the_current_infix: None,
                         infix_format: InfixFormat::Std,
                     },
-                    self.infix_for_direct_start(&ts, &InfixFormat::Std),
+                    self.infix_for_direct_start(&ts, &InfixFormat::Std)?,
                 )
             }
             Naming::Timestamps => (
@@ -373,7 +373,7 @@ impl State {
                 } else {
                     let fmt = InfixFormat::custom(ts_fmt);
                     let ts = latest_timestamp_file(&self.config, !self.config.append, &fmt);
-                    let infix = self.infix_for_direct_start(&ts, &fmt);
+                    let infix = self.infix_for_direct_start(&ts, &fmt)?;
                     (
                         NamingState::Timestamps {
                             current_timestamp: ts,
@@ -393,7 +393,7 @@ impl State {
                 CURRENT_INFIX.to_string(),
             ),
             Naming::NumbersDirect => {
-                let idx = match numbers::get_highest_index(&self.config.file_spec) {
+                let idx = match numbers::get_highest_index(&self.config.file_spec)? {
                     None => 0,
                     Some(idx) => {
                         if self.config.append {
@@ -443,14 +443,18 @@ impl State {
 
     // Without append we start a new file, so we must not reuse (and truncate)
     // a file that an earlier run has written within the same timestamp.
-    fn infix_for_direct_start(&self, ts: &DateTime<Local>, fmt: &InfixFormat) -> String {
+    fn infix_for_direct_start(
+        &self,
+        ts: &DateTime<Local>,
+        fmt: &InfixFormat,
+    ) -> Result<String, std::io::Error> {
         let infix = infix_from_timestamp(ts, self.config.use_utc, fmt);
         // the infix that a new file with this timestamp would get
         let next_infix = self
             .config
             .file_spec
-            .collision_free_infix_for_rotated_file(&infix);
-        if self.config.append {
+            .collision_free_infix_for_rotated_file(&infix)?;
+        Ok(if self.config.append {
             // we continue with the newest existing file, which can be a restart-file
             match next_infix
                 .rsplit_once(".restart-")
@@ -461,7 +465,7 @@ impl State {
             }
         } else {
             next_infix
-        }
+        })
     }
 
     pub fn config(&self) -> &FileLogWriterConfig {
@@ -527,7 +531,7 @@ impl State {
                             *ts = Local::now();
                             self.config.file_spec.collision_free_infix_for_rotated_file(
                                 &infix_from_timestamp(ts, self.config.use_utc, fmt),
-                            )
+                            )?
                         }
                     }
                     NamingState::NumbersRCurrent(ref mut idx_state) => {
